@@ -61,6 +61,9 @@ SORT_EXTRA_RECV = [
 ]
 
 IDX = ["undefined", "null", "NaN", "Infinity", "-Infinity", "-1", "-0", "0", "1", "2", "1.9", "100", '"1"']
+# keys that are NOT canonical index strings although a host integer parser would accept them, and canonical ones that are
+KEY_STRINGS = ['"0"', '"2"', '"-0"', '"00"', '"01"', '"+1"', '" 1"', '"1 "', '"1.0"', '"1e0"', '"0x1"', '"1_0"', '"\u0661"', '"-1"', '"4294967294"',
+               '"4294967295"', '"1.5"', '""', '"length"', "[1]", "[[2]]", "{toString: function () { return '1' }}", "true", "1e0", "0x1"]
 SEARCH = ["1", "2", '"1"', "undefined", "null", "NaN", "0", "-0", '"a"', "true", "a[0]"]
 
 CATCH = 'catch (e) { __out(typeof e === "string" ? "throw-s:" + e : "throw:" + e.name) }'
@@ -155,8 +158,11 @@ def grid_index_cases():
                 _case(out, prog(recv, "a.%s(%s)" % (m, s)), m, nt)
                 for i in IDX:
                     _case(out, prog(recv, "a.%s(%s, %s)" % (m, s, i)), m, nt)
-        for i in IDX:
+        for i in IDX + KEY_STRINGS:
             _case(out, prog(recv, "a[%s]" % i), "a[i] read", nt)
+        for i in KEY_STRINGS:
+            _case(out, prog(recv, "(%s in a)" % i), "i in a", nt)
+            _case(out, prog(recv, "a.hasOwnProperty(%s)" % i), "hasOwnProperty", nt)
         _case(out, prog(recv, "a.length"), "length read", nt)
     return out
 
@@ -181,6 +187,9 @@ def grid_plain_cases():
         for x in ("a", "a[0]", "a.length", "a.slice()", "a.concat()", "{}", '"s"', "undefined", "null", "",
                   "new Uint8Array(2)", "function () {}", "{length: 0}"):
             _case(out, prog(recv, "Array.isArray(%s)" % x), "Array.isArray", True)
+        # writes through keys that are not canonical index strings create ordinary properties
+        for key in ('"-0"', '"00"', '"01"', '"+1"', '" 1"', '"1.0"', '"1e0"', '"0x1"', '"-1"'):     # "1.5": documented stricter mode (TypeError)
+            _case(out, prog(recv, "(a[%s] = 'w')" % key) + "; __out(a.length); __out(Object.keys(a)); a[%s]" % key, "a[key] = v", True)
         # element writes: i < len and i == len only (documented stricter mode beyond that)
         for i in range(n + 1):
             for key in (str(i), '"%d"' % i) + (("a.length",) if i == n else ()) + (("a.length - 1",) if i == n - 1 else ()):
@@ -400,6 +409,9 @@ def typed_index_cases():
     out = []
     args2 = two_index_args()
     for k in KINDS:
+        for i in KEY_STRINGS:
+            _case(out, "var t = new %s([1, 2, 3]); __out(t[%s]); var r; try { r = (t[%s] = 7) } %s __out(r); __out(t); t[%s]"
+                  % (k, i, i, CATCH, i), "t[key]", True, kind=k)
         for i in IDX:
             _case(out, "var t = new %s([1, 2, 3]); t[%s]" % (k, i), "t[i] read", True, kind=k)
             _case(out, "var t = new %s([1, 2, 3]); var r; try { r = (t[%s] = 7) } %s __out(r); __out(t.length); t"
